@@ -48,7 +48,7 @@ Class(e, r) ==
   ELSE IF Explains(e, [dropParent |-> TRUE, transpose |-> FALSE]) THEN "Dev_ParentTransformDropped"
   ELSE IF Explains(e, [dropParent |-> FALSE, transpose |-> TRUE]) THEN "Dev_TwoByTwoTransposed"
   ELSE IF Explains(e, [dropParent |-> TRUE, transpose |-> TRUE]) THEN "Dev_ParentTransformDropped+Dev_TwoByTwoTransposed"
-  ELSE LET P == SplitPaths(e.o.cmds, 1, <<>>, <<>>) IN
+  ELSE LET P == SplitPaths(e.o.cmds) IN
        IF ~P.ok THEN "not-move-close-groups"
        ELSE IF Len(P.ps) # Len(r.cs) THEN "contour-count"
        ELSE "contour-shape"
@@ -66,12 +66,8 @@ Bump(s, r) ==
        !.closing_edge_curves = @ + Count({i \in 1 .. Len(cs) : ~cs[i][Len(cs[i])].on}),
        !.with_matrix = @ + (IF r.exact THEN 0 ELSE 1)]
 
-RECURSIVE CountImplied(_, _)
-CountImplied(cs, i) ==
-  IF i > Len(cs) THEN 0
-  ELSE (Len(Expand(cs[i])) - Len(cs[i])) + CountImplied(cs, i + 1)
-RECURSIVE CountPoints(_, _)
-CountPoints(cs, i) == IF i > Len(cs) THEN 0 ELSE Len(cs[i]) + CountPoints(cs, i + 1)
+CountImplied(cs) == FoldLeft(LAMBDA n, c : n + Len(Expand(c)) - Len(c), 0, cs)
+CountPoints(cs) == FoldLeft(LAMBDA n, c : n + Len(c), 0, cs)
 
 RootKind(e) ==
   LET rec == RecOf(e.a.glyphs, e.a.root) IN
@@ -82,8 +78,8 @@ TInit == l = 1 /\ stats = Stats0
 TNext ==
   /\ l <= Len(Rec)
   /\ l' = l + 1
-  /\ LET e  == Rec[l]
-         r  == OutlineOf(e, NoDev)
+  /\ \E r \in {OutlineOf(Rec[l], NoDev)} :       \* (a singleton: forces one evaluation of the outline)
+     LET e  == Rec[l]
          k  == RootKind(e)
          s1 == [stats EXCEPT !.events = @ + 1,
                              !.root_simple = @ + (IF k = "simple" THEN 1 ELSE 0),
@@ -91,18 +87,18 @@ TNext ==
                              !.root_empty = @ + (IF k = "empty" THEN 1 ELSE 0)]
          s2 == IF r.st = "ok"
                THEN [Bump(s1, r) EXCEPT !.judged_ok = @ + 1,
-                                        !.implied_points = @ + CountImplied(r.cs, 1),
-                                        !.points = @ + CountPoints(r.cs, 1)]
+                                        !.implied_points = @ + CountImplied(r.cs),
+                                        !.points = @ + CountPoints(r.cs)]
                ELSE IF r.st = "err" THEN [s1 EXCEPT !.judged_err = @ + 1]
                ELSE [s1 EXCEPT !.skipped = @ + 1]
      IN /\ stats' = s2
         /\ IF r.st \in {"ok", "err"} THEN TRUE
            ELSE PrintT(<<"SKIP", ToJson([i |-> e.i, case |-> e.case, why |-> r.st])>>)
         /\ IF Conforms(e, r) THEN TRUE
-           ELSE PrintT(<<"MISMATCH", ToJson([i |-> e.i, case |-> e.case, class |-> Class(e, r), st |-> r.st,
+           ELSE PrintT(<<"MISMATCH", ToJson([i |-> e.i, case |-> e.case, class |-> Class(e, r), st |-> r.st, kind |-> k,
                                              ok |-> e.o.ok, err |-> e.o.err,
-                                             nwant |-> Len(RefCommands(r.cs, 1)), ngot |-> Len(e.o.cmds),
-                                             want |-> FirstN(RefCommands(r.cs, 1), 12), got |-> FirstN(e.o.cmds, 12),
+                                             nwant |-> Len(RefCommands(r.cs)), ngot |-> Len(e.o.cmds),
+                                             want |-> FirstN(RefCommands(r.cs), 12), got |-> FirstN(e.o.cmds, 12),
                                              tol |-> IF r.exact THEN 0 ELSE Tol + r.eps + 1])>>)
         /\ IF l = Len(Rec) THEN PrintT(<<"STATS", ToJson(s2)>>) ELSE TRUE
 
